@@ -4,14 +4,99 @@
 //
 // Histories of porcelain steps on a generated repository whose states are
 // driven towards refusals (dirty worktree, existing/missing branches, invalid
-// options, non-fast-forward merges), and single injected disk failures at
-// enumerated ordinals. Whenever a go-git call returns an error, a snapshot of
-// HEAD, every reference, the decoded on-disk index and the tracked worktree
-// files taken immediately before the call must equal the one taken after it.
+// options, non-fast-forward merges and pulls, missing objects), and single
+// injected failures at enumerated points (one disk fault at a (step, operation
+// class, ordinal) triple, or one cut of a pull's connection at a byte offset).
+// Whenever a go-git call returns an error, a snapshot of HEAD, every
+// reference, the decoded on-disk index and the tracked worktree files taken
+// immediately before the call must equal the one taken after it.
+//
+// Real: Worktree.Checkout/Reset/Restore/Add/Remove/Move/Commit/Clean/Pull,
+// Repository.Merge, storage/filesystem on both sides, and for a pull the whole
+// client fetch path against the real transport.UploadPack. Stubbed: the disks
+// (simfs; the local one with fault ordinals) and the network (simnet.Transport
+// with Drv=nil: the server command runs in a goroutine of the same process on
+// a SEPARATE disk, joined to the client by byte streams whose segmentation is
+// a function of the writer's Write calls and the plan only). Global and system
+// git configuration is an empty ConfigLoader plugin (nothing is read from the
+// host).
+//
+// Plan space. Three families (field Steps is a history of at most 12 steps in
+// all of them): (1) local histories of 2-8 steps over the step language of
+// sim/porc plus the kinds of ext_test.go — mergex (merge of a branch, a
+// missing ref, a ref to an absent object, an arbitrary commit; unsupported
+// strategy), checkoutx / resetx / addx / commitx (invalid options, absent
+// hashes, missing sparse directory, path outside the worktree, no author),
+// corrupt (a loose commit/tree/blob of a known commit is deleted straight
+// from the image and the repository reopened: the quantifier's "missing
+// objects"), orphan (HEAD names an unborn branch); (2) pull histories: the
+// repository has a remote `origin` (field Remote: master of the remote equal /
+// ahead / behind / diverged / unrelated / absent relative to the local base,
+// 1-3 new commits rewriting chosen paths, wildcard or single-branch refspec,
+// packed server refs, with or without an existing remote-tracking ref, wire
+// protocol v0/v1/v2); local
+// steps (edits at the path the remote rewrites or elsewhere, add, commit,
+// reset, checkout to a detached HEAD, orphan, corrupt) are followed by a pull
+// by HEAD / branch name / other branch / missing ref / missing remote /
+// missing repository, with Force, Depth 1-2, SingleBranch; (3) missing-object
+// histories (corrupt, then checkout/reset/merge/pull towards the damaged
+// commit). Every plan runs fault-free and is expanded into single-fault
+// variants from a dry run: disk faults at (step, class, ordinal), for pull
+// steps reads by (exact path, ordinal) because the pack writer's indexer
+// goroutine reads the incoming pack concurrently (the only local operations
+// not issued by the calling goroutine; they are never chosen as fault
+// points), and cuts of the pull's connection at sampled byte offsets in
+// either direction.
+//
+// Oracle. Snapshot before = snapshot after whenever the call returned a
+// non-nil error; the snapshot is read straight from the disk image: HEAD's
+// bytes, every reference loose or packed, the decoded index, every tracked
+// worktree file (kind, exec bit, content). git.NoErrAlreadyUpToDate from Pull
+// is an error value that means "nothing to do": it is compared like any other
+// error but is not counted as a refusal and carries its own cause
+// (`noop:already-up-to-date`).
+//
+// Scope of a pull's comparison: HEAD, refs/heads/* (loose and packed), the
+// index and the tracked files. NOT judged, because the statement lists only
+// HEAD, branches, index and tracked files and a failed or refused pull may
+// well have completed its fetch half: refs/remotes/*, tags, FETCH_HEAD,
+// ORIG_HEAD, new objects and packs, the shallow file, the configuration.
+// For every operation: new objects in the store and untracked files are not
+// part of the snapshot. A call that returned nil is never judged here.
+//
+// Determinism. A pull runs inside a synctest bubble; the server command works
+// on its own disk, so the local disk is operated on by the calling goroutine
+// and, for reads of the incoming pack only, by the pack writer's indexer.
+// det_test.go repeats plans, their expansion and fault/cut variants and
+// compares the full local operation sequence. What depends on the
+// interleaving of client and server after a failure (how many bytes crossed
+// the connection, which of write/read notices a cut first, the server's own
+// error) stays out of the event log. The server of a pull has no tags and,
+// under a wildcard refspec, a single branch, because go-git walks the fetched
+// refs in Go map order. A client-side goroutine left blocked after a failed
+// pull (DotGit.NewObjectPack does not close the PackWriter it created when
+// cleanPackList reports an error) is counted (probe), not judged.
+//
+// Signatures: `C29|<op>:<form>|changed:<components>|<cause>` with cause
+// `refused:<error kind>` (a logical refusal changed something: each such
+// signature is a defect of its own), `fault` (an injected disk error on or
+// after the call's first mutation: the known lack of failure atomicity, one
+// known-finding pattern per operation family), `fault-before-first-mutation:
+// <class>@<place>` (the failure was known before anything was changed, and
+// still something changed; when the error returned is not the injected one
+// and the fault-free twin of the run fails in exactly the same way, the fault
+// was merely tolerated and the signature is the twin's `refused:` one),
+// `netcut` (the connection broke), `noop:...`. A refusal for a missing object
+// met after a corrupt step carries `@damaged-store`. For a pull the
+// signature's operation is plain `pull`: which ref, Depth, Force and
+// SingleBranch are in the event log. Minimised replays of the logical
+// findings are kept in findings/, candidate patches in proposed-fixes/.
+// `C29|harness|...` signatures report trouble of the simulation itself.
 package c29
 
 import (
 	"fmt"
+	"os"
 	"sort"
 	"strings"
 	"testing"
@@ -21,7 +106,9 @@ import (
 	"github.com/go-git/go-git/v6/verifsim/core"
 	"github.com/go-git/go-git/v6/verifsim/hooks"
 	"github.com/go-git/go-git/v6/verifsim/porc"
+	"github.com/go-git/go-git/v6/verifsim/sched"
 	"github.com/go-git/go-git/v6/verifsim/simfs"
+	"github.com/go-git/go-git/v6/verifsim/simnet"
 )
 
 type Plan struct {
@@ -31,16 +118,79 @@ type Plan struct {
 	Steps     []porc.Step  `json:"steps"`
 	FaultStep int          `json:"fault_step"` // index into Steps; -1 = fault-free
 	Fault     *simfs.Fault `json:"fault,omitempty"`
+	// Remote, when set, is the repository behind the remote `origin` (pull).
+	Remote *Remote `json:"remote,omitempty"`
+	// Net: segmentation of the k-th pull's connection (Net[k % len]); capacity
+	// limits and cut offsets in it are ignored (see Cut).
+	Net []simnet.ConnCfg `json:"net,omitempty"`
+	// Cut, when set, breaks the connection of the pull at step Cut.Step.
+	Cut *NetCut `json:"cut,omitempty"`
 }
 
-var weights = map[string]int{"edit": 7, "rmfile": 1, "add": 4, "rm": 2, "mv": 2, "commit": 3, "reset": 6, "checkout": 8, "restore": 3, "merge": 3, "tick": 1, "clean": 1}
+var weights = map[string]int{"edit": 7, "rmfile": 1, "add": 4, "rm": 2, "mv": 2, "commit": 3, "reset": 6, "checkout": 8, "restore": 3, "merge": 3, "tick": 1, "clean": 1,
+	"mergex": 3, "checkoutx": 3, "resetx": 2, "addx": 1, "commitx": 1, "corrupt": 1, "orphan": 1}
+
+// local steps in front of a pull
+var prePullWeights = map[string]int{"edit": 8, "rmfile": 1, "add": 3, "commit": 4, "reset": 3, "checkout": 2, "tick": 1, "orphan": 1, "corrupt": 1, "merge": 1}
+
+// steps after a loose object was removed
+var damagedWeights = map[string]int{"checkout": 8, "reset": 8, "checkoutx": 1, "merge": 2, "mergex": 3, "commit": 1, "restore": 1, "edit": 2, "add": 1, "corrupt": 2}
+
+func genNet(r *core.Rand) []simnet.ConnCfg {
+	chunks := func() []int {
+		switch r.Intn(4) {
+		case 0:
+			return []int{r.Pick2(1, 3, 17)}
+		case 1:
+			return []int{r.Pick2(5, 64, 1000), 0, r.Pick2(2, 300, 4096)}
+		}
+		return nil
+	}
+	return []simnet.ConnCfg{{C2S: simnet.Cfg{Chunks: chunks()}, S2C: simnet.Cfg{Chunks: chunks()}}}
+}
+
+func genPullStep(r *core.Rand) porc.Step {
+	// forms: head head branch side old ref-missing remote-missing url-missing; options: - - - depth1 depth2 single
+	return porc.Step{Kind: "pull", A: r.Pick2(0, 0, 1, 1, 2, 2, 3, 4, 5, 6, 7), B: r.Pick2(0, 1, 2, 0, 1, 2, 3, 4, 5), F: r.Chance(1, 4)}
+}
 
 func genPlan(r *core.Rand, tier string) any {
 	p := &Plan{RepoSeed: r.Uint64() % 48, Repack: r.Bool(), TickMs: []int{0, 1, 1000}[r.Intn(3)], FaultStep: -1}
 	if tier == "thorough" {
 		p.RepoSeed = r.Uint64() % 2048
 	}
-	p.Steps = porc.GenSteps(r, r.Range(2, 8), weights)
+	switch k := r.Intn(20); {
+	case k < 12:
+		p.Steps = porc.GenSteps(r, r.Range(2, 8), weights)
+	case k < 17:
+		// pull family
+		rm := &Remote{Shape: r.Pick("equal", "ahead", "ahead", "ahead", "behind", "diverged", "diverged", "unrelated", "nobranch"),
+			N: r.Pick2(1, 1, 1, 2, 3), Back: r.Range(1, 2), Wildcard: r.Bool(), PackRefs: r.Chance(1, 3), Tracking: r.Bool(), Proto: r.Pick2(0, 0, 1, 2, 3)}
+		for i := 0; i < rm.N; i++ {
+			rm.Touch = append(rm.Touch, r.Intn(8))
+		}
+		p.Remote = rm
+		p.Net = genNet(r)
+		pre := porc.GenSteps(r, r.Range(0, 3), prePullWeights)
+		for i := range pre {
+			if pre[i].Kind == "edit" && r.Bool() {
+				pre[i].A = rm.Touch[0] // dirty exactly where the remote's commit writes
+			}
+		}
+		p.Steps = append(pre, genPullStep(r))
+		if r.Chance(1, 3) {
+			p.Steps = append(p.Steps, porc.GenSteps(r, r.Range(0, 2), prePullWeights)...)
+			p.Steps = append(p.Steps, genPullStep(r))
+		}
+	default:
+		// missing objects
+		p.Steps = append(porc.GenSteps(r, r.Range(0, 2), prePullWeights), porc.Step{Kind: "corrupt", A: r.Intn(40), B: r.Intn(40)})
+		p.Steps = append(p.Steps, porc.GenSteps(r, r.Range(1, 4), damagedWeights)...)
+		if r.Chance(1, 4) {
+			p.Remote = &Remote{Shape: r.Pick("ahead", "diverged", "equal"), N: 1, Back: 1, Touch: []int{r.Intn(8)}, Wildcard: r.Bool()}
+			p.Steps = append(p.Steps, genPullStep(r))
+		}
+	}
 	return p
 }
 
@@ -60,11 +210,32 @@ func variant(s porc.Step) string {
 		if s.F {
 			return "commit:all"
 		}
+	case "pull":
+		// which ref is pulled, Depth, Force and SingleBranch are in the event
+		// log and the probes, not in the signature
+		return "pull"
+	case "mergex":
+		return "merge:" + mergeForm(s)
+	case "checkoutx":
+		return "checkout:" + checkoutxForm(s)
+	case "resetx":
+		if mod(s.A, 3) == 2 {
+			// a reset with an existing sparse directory is a reset
+			return "reset:" + []string{"soft", "mixed", "hard", "merge", "keep"}[mod(s.B, 5)]
+		}
+		return "reset:" + resetxForm(s)
+	case "addx":
+		return "add:" + addxForm(s)
+	case "commitx":
+		return "commit:" + commitxForm(s)
 	}
 	return s.Kind
 }
 
 func mod(a, n int) int {
+	if n <= 0 {
+		return 0
+	}
 	a %= n
 	if a < 0 {
 		a += n
@@ -72,38 +243,110 @@ func mod(a, n int) int {
 	return a
 }
 
+func hasPull(p *Plan) bool {
+	for i, s := range p.Steps {
+		if i >= 12 {
+			break
+		}
+		if s.Kind == "pull" {
+			return true
+		}
+	}
+	return false
+}
+
+// stepOps is what the dry run of one go-git step saw on the local disk.
 type stepOps struct {
-	step   int
-	counts map[simfs.OpClass]int
+	step     int
+	pull     bool
+	counts   map[simfs.OpClass]int
+	reads    []string // pull only: path of every read outside the incoming pack, in order
+	s2c, c2s int64    // pull only: bytes that crossed the connection
+}
+
+type cand struct {
+	step    int
+	class   simfs.OpClass
+	nth     int
+	pathSub string
+	cutDir  string
+	cutAt   int64
+}
+
+var faultClasses = []simfs.OpClass{simfs.OpWrite, simfs.OpCreate, simfs.OpOpen, simfs.OpRead, simfs.OpStat, simfs.OpRename, simfs.OpClose, simfs.OpRemove, simfs.OpReadDir, simfs.OpMkdir, simfs.OpChmod, simfs.OpSymlink}
+
+// dryRun executes the plan fault-free and reports the local disk's
+// operations per go-git step.
+func dryRun(t *testing.T, p *Plan) []stepOps {
+	var per []stepOps
+	q := *p
+	q.FaultStep, q.Fault, q.Cut = -1, nil, nil
+	run(t, &q, func(i int, user bool, d *simfs.Disk, x *ext) {
+		if user {
+			return
+		}
+		so := stepOps{step: i, counts: d.ClassCounts()}
+		if i < len(q.Steps) && q.Steps[i].Kind == "pull" {
+			so.pull = true
+			so.s2c, so.c2s = x.s2c, x.c2s
+			for _, op := range d.Log {
+				if op.Class == simfs.OpRead && !strings.Contains(op.Path, "tmp_pack_") {
+					so.reads = append(so.reads, op.Path)
+				}
+			}
+		}
+		per = append(per, so)
+	})
+	return per
+}
+
+func candidates(per []stepOps, r *core.Rand, tier string) (disk, cuts []cand) {
+	for _, so := range per {
+		for _, c := range faultClasses {
+			if so.pull && c == simfs.OpRead {
+				// The pack writer's indexer goroutine reads the incoming pack
+				// (objects/pack/tmp_pack_*) while the caller is still writing
+				// it: how many reads it needs depends on the interleaving, so
+				// "the k-th read of the step" is not a function of the plan.
+				// Reads are addressed by (exact path, ordinal on that path)
+				// instead, and the incoming pack is never a fault point.
+				seen := map[string]int{}
+				for _, path := range so.reads {
+					seen[path]++
+					disk = append(disk, cand{step: so.step, class: c, nth: seen[path], pathSub: path})
+				}
+				continue
+			}
+			for k := 1; k <= so.counts[c]; k++ {
+				disk = append(disk, cand{step: so.step, class: c, nth: k})
+			}
+		}
+		if so.pull {
+			n := 3
+			if tier == "thorough" {
+				n = 40
+			}
+			for k := 0; k < n && so.s2c > 0; k++ {
+				cuts = append(cuts, cand{step: so.step, cutDir: "s2c", cutAt: 1 + int64(r.Intn(int(so.s2c)))})
+			}
+			for k := 0; k < (n+2)/3 && so.c2s > 0; k++ {
+				cuts = append(cuts, cand{step: so.step, cutDir: "c2s", cutAt: 1 + int64(r.Intn(int(so.c2s)))})
+			}
+		}
+	}
+	return disk, cuts
 }
 
 func expand(t *testing.T, pa any, tier string) []any {
 	p := pa.(*Plan)
 	out := []any{p}
-	var per []stepOps
-	q := *p
-	q.FaultStep, q.Fault = -1, nil
-	run(t, &q, func(i int, user bool, d *simfs.Disk) {
-		if !user {
-			per = append(per, stepOps{step: i, counts: d.ClassCounts()})
-		}
-	})
+	per := dryRun(t, p)
 	r := core.NewRand(p.RepoSeed*131 + uint64(len(p.Steps)))
-	type cand struct {
-		step  int
-		class simfs.OpClass
-		nth   int
+	cands, cuts := candidates(per, r, tier)
+	limit := 20
+	if hasPull(p) {
+		limit = 16 // plus the cuts; a pull run costs about twice a local one (the server encodes a pack)
 	}
-	var cands []cand
-	classes := []simfs.OpClass{simfs.OpWrite, simfs.OpCreate, simfs.OpOpen, simfs.OpRead, simfs.OpStat, simfs.OpRename, simfs.OpClose, simfs.OpRemove, simfs.OpReadDir, simfs.OpMkdir, simfs.OpChmod, simfs.OpSymlink}
-	for _, so := range per {
-		for _, c := range classes {
-			for k := 1; k <= so.counts[c]; k++ {
-				cands = append(cands, cand{so.step, c, k})
-			}
-		}
-	}
-	limit := 24
 	if tier == "thorough" {
 		limit = 400
 	}
@@ -113,12 +356,15 @@ func expand(t *testing.T, pa any, tier string) []any {
 			cands[i], cands[j] = cands[j], cands[i]
 		}
 		cands = cands[:limit]
-		sort.Slice(cands, func(i, j int) bool {
+		sort.SliceStable(cands, func(i, j int) bool {
 			if cands[i].step != cands[j].step {
 				return cands[i].step < cands[j].step
 			}
 			if cands[i].class != cands[j].class {
 				return cands[i].class < cands[j].class
+			}
+			if cands[i].pathSub != cands[j].pathSub {
+				return cands[i].pathSub < cands[j].pathSub
 			}
 			return cands[i].nth < cands[j].nth
 		})
@@ -133,7 +379,12 @@ func expand(t *testing.T, pa any, tier string) []any {
 		case simfs.OpCreate, simfs.OpOpen:
 			errno = []string{"EACCES", "EMFILE"}[r.Intn(2)]
 		}
-		q.Fault = &simfs.Fault{Class: c.class, Nth: c.nth, Errno: errno, Short: r.Intn(64)}
+		q.Fault = &simfs.Fault{Class: c.class, Nth: c.nth, PathSub: c.pathSub, Errno: errno, Short: r.Intn(64)}
+		out = append(out, &q)
+	}
+	for _, c := range cuts {
+		q := *p
+		q.Cut = &NetCut{Step: c.step, Dir: c.cutDir, At: c.cutAt, Kind: r.Intn(2)}
 		out = append(out, &q)
 	}
 	return out
@@ -183,19 +434,76 @@ func faultPhase(d *simfs.Disk) string {
 	return "mid"
 }
 
-func run(t *testing.T, p *Plan, observe func(step int, user bool, d *simfs.Disk)) (out core.Outcome) {
+// debugRecord: step whose disk log dbg_test.go wants recorded (-1: none).
+var debugRecord = -1
+
+// recordAll: det_test.go wants the disk log of every step.
+var recordAll bool
+
+type observer func(step int, user bool, d *simfs.Disk, x *ext)
+
+// run executes a plan. A plan with a pull runs inside a synctest bubble: the
+// server command's goroutine, the pack indexer and whatever else the call
+// starts must have ended when the run ends, or the bubble reports them.
+func run(t *testing.T, p *Plan, observe observer) (out core.Outcome) {
 	hooks.Deterministic(true)
 	b := porc.GetBase(p.RepoSeed, p.Repack, false)
 	if b.Err != nil {
 		out.Inconclusive = "setup-failed"
 		return out
 	}
+	var srv *simfs.Disk
+	if p.Remote != nil {
+		rb := getRemote(b, p.RepoSeed, p.Repack, p.Remote)
+		if rb.err != nil {
+			out.Inconclusive = "setup-remote-failed"
+			return out
+		}
+		srv = rb.disk
+	}
+	if !hasPull(p) {
+		runSteps(p, b, srv, false, observe, &out)
+		return out
+	}
+	if panicked := sched.Bubble(t, func() { runSteps(p, b, srv, true, observe, &out) }); panicked != nil {
+		msg := fmt.Sprint(panicked)
+		if strings.Contains(msg, "main bubble goroutine has exited but blocked goroutines remain") {
+			// runSteps returned (out is complete; every server command has
+			// ended, see ext.pull), but a goroutine started by go-git on the
+			// client side is still blocked: DotGit.NewObjectPack returns
+			// cleanPackList's error (a failed close of a cached pack handle)
+			// without closing the PackWriter it has just created, whose
+			// indexer goroutine then waits for ever. A leak on an error path,
+			// not something C29 speaks about: counted, not judged.
+			out.Probe("client-goroutine-left-behind-after-failed-pull")
+			return out
+		}
+		if len(msg) > 300 {
+			msg = msg[:300]
+		}
+		out.Signature, out.Message = "", ""
+		out.Fail("C29|harness|panic-in-run", "the run did not end cleanly: %s", msg)
+	}
+	return out
+}
+
+func runSteps(p *Plan, b *porc.Base, srv *simfs.Disk, inBubble bool, observe observer, out *core.Outcome) {
 	w, err := porc.Open(b, filesystem.Options{})
 	if err != nil {
 		out.Inconclusive = "setup-open-failed"
-		return out
+		return
 	}
 	d := w.Disk
+	x := &ext{p: p, inBubble: inBubble, out: out}
+	if srv != nil {
+		x.srv = srv.Clone()
+		if err := x.setupRemote(w); err != nil {
+			out.Inconclusive = "setup-remote-failed"
+			_ = w.Env.Storage.Close()
+			return
+		}
+		out.Probe("remote-shape:" + normShape(p.Remote.Shape))
+	}
 	if p.TickMs > 0 {
 		d.Tick = time.Duration(p.TickMs) * time.Millisecond
 	}
@@ -203,14 +511,15 @@ func run(t *testing.T, p *Plan, observe func(step int, user bool, d *simfs.Disk)
 		if i >= 12 {
 			break
 		}
+		isPull := s.Kind == "pull"
 		armed := p.Fault != nil && p.FaultStep == i
-		before := porc.TakeSnapshot(d)
+		before := judged(porc.TakeSnapshot(d), s.Kind)
 		d.ResetCounters()
-		d.Record = armed
+		d.Record = armed || (isPull && observe != nil) || debugRecord == i || recordAll
 		if armed {
 			d.SetFaults([]simfs.Fault{*p.Fault})
 		}
-		err, user := w.Do(s)
+		err, user := x.do(w, i, s)
 		fired := 0
 		for _, v := range d.FaultsFired {
 			fired += v
@@ -222,33 +531,76 @@ func run(t *testing.T, p *Plan, observe func(step int, user bool, d *simfs.Disk)
 				where = pathClass(d)
 				out.Faults = map[string]int{string(p.Fault.Class) + ":" + p.Fault.Errno: 1}
 			}
-			d.Record = false
 		}
 		if observe != nil {
-			observe(i, user, d)
+			observe(i, user, d, x)
 		}
+		d.Record = false
 		if user {
 			continue
+		}
+		if isPull {
+			pullProbes(out, x, s, err)
+			if x.cutFired {
+				if out.Faults == nil {
+					out.Faults = map[string]int{}
+				}
+				out.Faults["net-cut:"+cutDir(p)]++
+			}
+			if x.leftOpen {
+				out.Fail("C29|harness|server-command-still-running-after-pull", "step %d (%s) returned (%v) and left the connection open: the server command was still running", i, variant(s), err)
+				break
+			}
 		}
 		if err == nil {
 			continue
 		}
 		out.NonTrivial = true
-		cause := "refused:" + porc.ErrKind(err)
-		if fired > 0 {
+		twinNeeded := false
+		cause := refusedCause(x, isPull, err)
+		switch {
+		case fired > 0:
 			// one signature per (operation, changed components): WHERE the
 			// fault landed is in the message and the probes, not the signature
 			cause = "fault"
-			if faultPhase(d) == "pre" {
+			phase := faultPhase(d)
+			if isPull {
+				phase = pullFaultPhase(d)
+			}
+			if phase == "pre" {
 				cause = "fault-before-first-mutation:" + string(p.Fault.Class) + "@" + where
+				twinNeeded = !simfs.IsInjected(err)
 			}
 			out.Probe("op-failed-after-fault")
 			out.Probe(fmt.Sprintf("fault-landed:%s@%s", p.Fault.Class, where))
-		} else {
+			if isPull {
+				out.Probe("pull-failed-after-fault:" + phase)
+			}
+		case isPull && x.cutFired:
+			cause = "netcut"
+			out.Probe("pull-failed-after-netcut:" + cutDir(p))
+		case errKind(err) == "already-up-to-date":
+			// cause is noop:already-up-to-date (refusedCause): not a refusal
+			out.Probe("pull:already-up-to-date")
+		default:
 			out.Probe("refused:" + variant(s))
+			out.Probe("refused:" + opOf(s.Kind) + ":" + refusalClass(err))
 		}
-		after := porc.TakeSnapshot(d)
+		after := judged(porc.TakeSnapshot(d), s.Kind)
 		if diff := before.Diff(after); len(diff) > 0 {
+			if twinNeeded {
+				// The fault came before the first mutation and the error
+				// returned is not the injected one. Either go-git tolerated
+				// the failed operation (a probe for an optional file, say) and
+				// then refused for a logical reason exactly as it does without
+				// the fault — then this is that refusal's signature — or the
+				// fault made it go on where it should have stopped.
+				refused := refusedCause(x, isPull, err)
+				if twin(p, b, srv, inBubble, i) == fmt.Sprintf("C29|%s|changed:%s|%s", variant(s), strings.Join(diff, ","), refused) {
+					cause = refused
+					out.Probe("fault-tolerated-then-refused-like-the-fault-free-twin")
+				}
+			}
 			out.Fail(fmt.Sprintf("C29|%s|changed:%s|%s", variant(s), strings.Join(diff, ","), cause),
 				"step %d (%s) returned an error (%v) but changed %s", i, variant(s), err, strings.Join(diff, ", "))
 			break
@@ -259,24 +611,104 @@ func run(t *testing.T, p *Plan, observe func(step int, user bool, d *simfs.Disk)
 	out.StateHash = d.Digest("/w", nil)
 	out.Steps = len(p.Steps)
 	_ = w.Env.Storage.Close()
-	return out
+}
+
+// twin runs the plan without its fault or cut up to and including step i and
+// returns the signature of that run ("" when it held).
+func twin(p *Plan, b *porc.Base, srv *simfs.Disk, inBubble bool, i int) string {
+	q := *p
+	q.FaultStep, q.Fault, q.Cut = -1, nil, nil
+	if i+1 < len(q.Steps) {
+		q.Steps = q.Steps[:i+1]
+	}
+	var o core.Outcome
+	runSteps(&q, b, srv, inBubble, nil, &o)
+	return o.Signature
+}
+
+// refusedCause is the cause component of the signature of a logical refusal.
+// Once a loose object has been removed from the store (step kind corrupt) the
+// cause says so: "the operation met a missing object half-way" is a
+// mechanism of its own, not to be confused with the same error kind on an
+// intact store.
+func refusedCause(x *ext, isPull bool, err error) string {
+	if errKind(err) == "already-up-to-date" {
+		return "noop:already-up-to-date"
+	}
+	c := "refused:" + errKind(err)
+	if isPull {
+		c = "refused:" + pullErrKind(err)
+	}
+	if k := refusalClass(err); x.damaged && (k == "object-missing" || k == "file-missing") {
+		c += "@damaged-store"
+	}
+	return c
+}
+
+func cutDir(p *Plan) string {
+	if p.Cut != nil && p.Cut.Dir == "c2s" {
+		return "c2s"
+	}
+	return "s2c"
+}
+
+func pullProbes(out *core.Outcome, x *ext, s porc.Step, err error) {
+	out.Probe("pull:" + pullForm(s))
+	if err == nil {
+		out.Probe("pull-ok")
+	}
+	if x.gotPack {
+		out.Probe("pull-received-pack")
+	}
+	if pullDepth(s) > 0 {
+		out.Probe("pull:depth")
+	}
+	if s.F {
+		out.Probe("pull:force")
+	}
+	if mod(s.B, 6) == 5 {
+		out.Probe("pull:single-branch")
+	}
+	res := "ok"
+	if err != nil {
+		res = "error"
+	}
+	if x.dirtyTouch {
+		out.Probe("pull:dirty-at-path-the-remote-rewrites:" + res)
+	} else if x.dirtyOther {
+		out.Probe("pull:dirty-elsewhere:" + res)
+	}
 }
 
 func TestCheck(t *testing.T) {
+	sched.DumpOnPanic = os.Getenv("C29_DUMP") != "" // debugging aid: stacks of what a bubble left behind
 	core.Main(t, core.Check{
 		ID:    "C29",
 		Level: "fault_enumeration",
-		Rule: "plan = generated repository x history of 2-8 steps biased towards refusals (edits that dirty the worktree, checkout in 5 forms incl. create-existing/missing branch, reset in 5 modes, restore incl. no files, merge ff-only, commit, add/rm/mv of present and absent paths); " +
-			"each plan runs fault-free and is expanded into single-fault variants at enumerated (step, operation class, ordinal) triples (all up to 400 in thorough, a sample of 24 in quick); " +
-			"whenever a go-git call returns an error the snapshot (HEAD text, all refs loose+packed, decoded on-disk index, tracked worktree files) before must equal after; non-trivial = at least one call returned an error",
+		Rule: "plan = generated repository x history of at most 12 steps biased towards refusals; three families: local histories (edits that dirty the worktree, checkout in 5 forms incl. create-existing/missing branch, reset in 5 modes, restore incl. no files, merge ff-only, commit, add/rm/mv of present and absent paths, plus merge of missing/absent/arbitrary targets and unsupported strategy, checkout/reset/add/commit with invalid options, absent hashes, missing sparse directory, paths outside the worktree, no author, deleted loose objects, unborn HEAD), " +
+			"pull histories (remote `origin` on a separate disk served by the real upload-pack over simulated streams; remote master equal/ahead/behind/diverged/unrelated/absent; dirty worktree at or away from the path the remote rewrites; detached/unborn HEAD; pull by HEAD, branch, other branch, missing ref, missing remote, missing repository; Force, Depth, SingleBranch) and missing-object histories; " +
+			"each plan runs fault-free and is expanded into single-fault variants: disk faults at enumerated (step, operation class, ordinal) triples (all up to 400 in thorough, a sample of 20 — 16 for plans with a pull — in quick; reads of a pull step by (path, ordinal)) and cuts of a pull's connection at sampled byte offsets in both directions; " +
+			"whenever a go-git call returns an error the snapshot (HEAD text, all refs loose+packed — for a pull refs/heads/* only —, decoded on-disk index, tracked worktree files) before must equal after; non-trivial = at least one call returned an error",
 		Assumptions: []string{"snapshots are read straight from the simulated disk image, not through go-git", "new objects in the object store are allowed (the statement lists HEAD, branches, index, tracked files)",
-			"untracked files are not part of the snapshot"},
-		Real:    []string{"Worktree.Checkout/Reset/Restore/Add/Remove/Move/Commit/Clean", "Repository.Merge", "storage/filesystem"},
-		Stub:    []string{"disk (simfs) with fault ordinals"},
-		Runs:    map[string]int{"quick": 2400, "thorough": 30000},
+			"untracked files are not part of the snapshot", "a pull is judged on HEAD, refs/heads/*, index and tracked files only: refs/remotes/*, tags, FETCH_HEAD, ORIG_HEAD, the shallow file and the configuration belong to its fetch half",
+			"the server of a pull has no tags and, under a wildcard refspec, one branch: go-git walks the fetched refs in Go map order, which would make the local disk's operation order differ between runs",
+			"global/system git configuration is empty (ConfigLoader plugin), nothing is read from the host"},
+		Real:    []string{"Worktree.Checkout/Reset/Restore/Add/Remove/Move/Commit/Clean/Pull", "Repository.Merge", "Remote.fetch, transport client session, packfile writer", "transport.UploadPack (server side)", "storage/filesystem (both sides)"},
+		Stub:    []string{"disks (simfs; the local one with fault ordinals)", "network (simnet streams: deterministic segmentation, cut offsets)", "clock of pull runs (synctest bubble)"},
+		Runs:    map[string]int{"quick": 1800, "thorough": 30000},
 		NewPlan: func() any { return &Plan{FaultStep: -1} },
 		Gen:     genPlan,
 		Expand:  expand,
 		Exec:    execPlan,
+		RequiredProbes: []string{
+			"refused:checkout:unstaged-changes", "refused:checkout:branch-exists", "refused:checkout:ref-missing", "refused:checkout:object-missing", "refused:checkout:invalid-options", "refused:checkout:sparse-dir-missing",
+			"refused:reset:unstaged-changes", "refused:reset:object-missing", "refused:reset:sparse-dir-missing",
+			"refused:restore:invalid-options", "refused:add:path-missing", "refused:add:path-outside", "refused:commit:empty-commit", "refused:commit:missing-author",
+			"refused:merge:non-ff", "refused:merge:ref-missing", "refused:merge:object-missing", "refused:merge:unsupported-strategy",
+			"refused:pull:non-ff", "refused:pull:unstaged-changes", "refused:pull:ref-missing", "refused:pull:remote-missing", "refused:pull:remote-ref-missing", "refused:pull:remote-repository-missing",
+			"pull-ok", "pull-received-pack", "pull:depth", "pull:force", "pull:dirty-at-path-the-remote-rewrites:error", "pull:dirty-elsewhere:error",
+			"pull-failed-after-fault:pre", "pull-failed-after-fault:mid", "pull-failed-after-netcut:s2c", "pull-failed-after-netcut:c2s",
+			"corrupt:blob", "corrupt:tree", "corrupt:commit",
+		},
 	})
 }
